@@ -21,8 +21,12 @@ static const char *what = "all";
 static const size_t TRLENS[] = { 0, 1, 16, 17, 64, 129, 257, 769, 1025 };   /* single-stepping costs ~40 us per instruction here */
 #define NTRLENS (sizeof TRLENS / sizeof *TRLENS)
 
-#define DATA_MAX (1 << 17)
+#define SMALL_MAX ((size_t)1 << 17)
+static size_t DATA_MAX = SMALL_MAX;   /* thorough functional runs: 16 MiB (documented XTS maximum, GCM counter carries at 1 MiB) */
 static vk_slot s_in, s_out, s_aad, s_iv, s_tag, s_key, s_key2, s_ctx, s_tw;
+static vk_slot b_in, b_out;
+#define SI(len) ((len) > SMALL_MAX - 4096 ? &b_in : &s_in)
+#define SO(len) ((len) > SMALL_MAX - 4096 ? &b_out : &s_out)
 static uint8_t *pool;        /* plaintext pool */
 static uint8_t *scratch1, *scratch2, *scratch3;
 
@@ -159,16 +163,16 @@ static void gcm_call(int f, int ks, int dec, int nt, size_t len, size_t aad, int
 	int pl = place;
 	if (nt && place == VK_END && len % 64) pl = VK_START;
 	if (inplace) {
-		p_out = put_out(&s_out, len, pl, al, 64 * 3 + midoff, &o_out, prefill);
+		p_out = put_out(SO(len), len, pl, al, 64 * 3 + midoff, &o_out, prefill);
 		memcpy(p_out, src, len);
 		p_in = p_out;
 	} else {
-		p_in = put_in(&s_in, src, len, pl, al, 64 * 5 + midoff, &o_in);
-		p_out = put_out(&s_out, len, pl, al, 64 * 3 + (nt ? 0 : (midoff * 7) % 64), &o_out, prefill);
+		p_in = put_in(SI(len), src, len, pl, al, 64 * 5 + midoff, &o_in);
+		p_out = put_out(SO(len), len, pl, al, 64 * 3 + (nt ? 0 : (midoff * 7) % 64), &o_out, prefill);
 	}
 	vk_call_poison = poison;
 	*faulted = 0;
-	vk_alarm(5000);
+	vk_alarm(DATA_MAX > (1 << 20) ? 60000 : 5000);
 	if (VK_TRY()) {
 		VCALLN(fn, nm, AP(p_key), AP(p_ctx), AP(p_out), AP(p_in), A64(len), AP(p_iv), AP(p_aad), A64(aad), AP(p_tag), A64(taglen));
 		VK_END_TRY();
@@ -176,7 +180,7 @@ static void gcm_call(int f, int ks, int dec, int nt, size_t len, size_t aad, int
 	vk_alarm(0);
 	vk_stat("calls_gcm", 1);
 	if (*faulted) { fault_report(nm, shape); return; }
-	canary_report(nm, "out", &s_out, o_out, len, shape);
+	canary_report(nm, "out", SO(len), o_out, len, shape);
 	canary_report(nm, "tag", &s_tag, o_tag, taglen, shape);
 	canary_report(nm, "ctx", &s_ctx, o_ctx, sizeof(struct isal_gcm_context_data), shape);
 	if (func_check && (memcmp(p_out, expect, len) || memcmp(p_tag, gref.tag, taglen))) {
@@ -247,6 +251,8 @@ static void gcm_sweep(void)
 		for (size_t l = 4096 - w; l <= 4096 + (size_t)w; l++) lens[nl++] = l;
 		w = vk_thorough ? 64 : 17;
 		for (size_t l = 65536 - w; l <= 65536 + (size_t)w; l++) lens[nl++] = l;
+		/* second counter byte carries at block 65534 (byte 2^20-32) */
+		if (DATA_MAX > (1 << 20) + 64) { static const int d[] = { -33, -31, -16, 0, 1, 47 }; for (unsigned i = 0; i < 6; i++) lens[nl++] = (size_t)((1 << 20) + d[i]); }
 	} else { lens[nl++] = 2048; lens[nl++] = 4097; }
 	if (vk_want_trace) { nl = 0; for (unsigned i = 0; i < NTRLENS; i++) lens[nl++] = TRLENS[i]; }
 	gcm_prepare_keys();
@@ -297,6 +303,7 @@ static void gcm_sweep(void)
 						} else {
 							int noff = vk_thorough ? 16 : 2;
 							if (nt || vk_want_trace) noff = 1;
+							if (len > 100000 && noff > 2) noff = 2;
 							/* offsets: all residues over the sweep (len-dependent), in-place alternating */
 							for (int oi = 0; oi < noff; oi++) {
 								size_t off = vk_thorough ? (size_t)oi : (oi ? 1 + len % 15 : 0);
@@ -374,18 +381,18 @@ static void xts_call(int f, int ks, int dec, int expanded, int tw, size_t len, i
 		p_tw = put_in(&s_tw, xts_tw[tw], 16, VK_MID, 1, 64 + (midoff * 11) % 16, NULL);
 	}
 	uint8_t *p_in, *p_out;
-	if (inplace) { p_out = put_out(&s_out, len, place, 1, 192 + midoff, &o_out, prefill); memcpy(p_out, src, len); p_in = p_out; }
-	else { p_in = put_in(&s_in, src, len, place, 1, 320 + midoff, &o_in); p_out = put_out(&s_out, len, place, 1, 192 + (midoff * 7) % 64, &o_out, prefill); }
+	if (inplace) { p_out = put_out(SO(len), len, place, 1, 192 + midoff, &o_out, prefill); memcpy(p_out, src, len); p_in = p_out; }
+	else { p_in = put_in(SI(len), src, len, place, 1, 320 + midoff, &o_in); p_out = put_out(SO(len), len, place, 1, 192 + (midoff * 7) % 64, &o_out, prefill); }
 	vk_call_poison = poison;
 	*faulted = 0;
 	uint64_t ret = 0;
-	vk_alarm(5000);
+	vk_alarm(DATA_MAX > (1 << 20) ? 60000 : 5000);
 	if (VK_TRY()) { ret = VCALLN(fn, nm, AP(p_k2), AP(p_k1), AP(p_tw), A64(len), AP(p_in), AP(p_out)); VK_END_TRY(); }
 	else *faulted = 1;
 	vk_alarm(0);
 	vk_stat("calls_xts", 1);
 	if (*faulted) { fault_report(nm, shape); return; }
-	canary_report(nm, "out", &s_out, o_out, len, shape);
+	canary_report(nm, "out", SO(len), o_out, len, shape);
 	if (len < 16) {
 		/* no-op clause: neither buffer touched (input is read-only mapped; output keeps its prefill) */
 		int touched = 0;
@@ -411,6 +418,7 @@ static void xts_sweep(void)
 	for (size_t l = 0; l <= maxl; l++) lens[nl++] = l;
 	for (size_t l = 4096 - 40; l <= 4096 + 40; l++) if (!secrets_mode || l % 16 < 2) lens[nl++] = l;
 	if (vk_thorough && !secrets_mode && !pair_mode) { lens[nl++] = 65536; lens[nl++] = 65551; }
+	if (DATA_MAX >= ((size_t)1 << 24)) { lens[nl++] = (1 << 20) + 17; lens[nl++] = (1 << 24) - 16; lens[nl++] = (1 << 24) - 1; lens[nl++] = 1 << 24; }   /* up to the documented maximum */
 	if (vk_want_trace) { nl = 0; for (unsigned i = 0; i < NTRLENS; i++) lens[nl++] = TRLENS[i]; }
 	vk_fill(xts_k1, 32, 0x7751); vk_fill(xts_k2, 32, 0x7752);
 	vk_fill(xts_tw[0], 16, 0x77aa); memset(xts_tw[1], 0xff, 16); memset(xts_tw[2], 0, 16); xts_tw[2][15] = 0x80;
@@ -421,6 +429,7 @@ static void xts_sweep(void)
 		if (vk_deadline_hit()) { vk_stat("deadline_skipped_lens", 1); continue; }
 		for (int ks = 0; ks < 2; ks++) for (int tw = 0; tw < 3; tw++) {
 			if (tw && !vk_thorough && (len % 7) != (size_t)tw) continue;
+			if (tw && len > 100000) continue;
 			if (tw && vk_want_trace) continue;
 			/* tweak 0 is a fresh seeded value per (length, key size): carry patterns of the GF(2^128) doublings
 			 * (which select different code in the stealing paths) vary over the sweep */
@@ -452,6 +461,7 @@ static void xts_sweep(void)
 						xts_call(f, ks, dec, ex, tw, len, VK_MID, 0, 0, 0, 0x5a5a5a5a5a5a5a5aULL, NULL, &fl, 0, 0);
 					} else {
 						int noff = vk_want_trace ? 1 : vk_thorough ? 16 : 2;
+						if (len > 100000) noff = 2;
 						for (int oi = 0; oi < noff; oi++) {
 							size_t off = vk_thorough ? (size_t)oi : (oi ? 1 + len % 15 : 0);
 							xts_call(f, ks, dec, ex, tw, len, VK_MID, off, (oi + dec) & 1, 0x3c, 0x5a5a5a5a5a5a5a5aULL, o1, &fl, 0, 0);
@@ -514,17 +524,17 @@ static void cbc_call(int dec, int f, int ks, size_t len, int place, size_t midof
 	uint8_t *p_iv = put_in(&s_iv, cbc_iv, 16, kp, 16, 0, NULL);
 	const uint8_t *src = dec ? cref : pool, *expect = dec ? pool : cref;
 	size_t o_in, o_out; uint8_t *p_in, *p_out;
-	if (inplace) { p_out = put_out(&s_out, len, place, 1, 192 + midoff, &o_out, prefill); memcpy(p_out, src, len); p_in = p_out; }
-	else { p_in = put_in(&s_in, src, len, place, 1, 320 + midoff, &o_in); p_out = put_out(&s_out, len, place, 1, 192 + (midoff * 7) % 64, &o_out, prefill); }
+	if (inplace) { p_out = put_out(SO(len), len, place, 1, 192 + midoff, &o_out, prefill); memcpy(p_out, src, len); p_in = p_out; }
+	else { p_in = put_in(SI(len), src, len, place, 1, 320 + midoff, &o_in); p_out = put_out(SO(len), len, place, 1, 192 + (midoff * 7) % 64, &o_out, prefill); }
 	vk_call_poison = poison;
 	*faulted = 0;
-	vk_alarm(5000);
+	vk_alarm(DATA_MAX > (1 << 20) ? 60000 : 5000);
 	if (VK_TRY()) { VCALLN(fn, nm, AP(p_in), AP(p_iv), AP(p_keys), AP(p_out), A64(len)); VK_END_TRY(); }
 	else *faulted = 1;
 	vk_alarm(0);
 	vk_stat("calls_cbc", 1);
 	if (*faulted) { fault_report(nm, shape); return; }
-	canary_report(nm, "out", &s_out, o_out, len, shape);
+	canary_report(nm, "out", SO(len), o_out, len, shape);
 	if (func_check && memcmp(p_out, expect, len)) {
 		char key[160]; size_t d = 0; while (d < len && p_out[d] == expect[d]) d++;
 		snprintf(key, sizeof key, "%s:mismatch", nm);
@@ -543,6 +553,7 @@ static void cbc_sweep(void)
 	for (int n = 1; n <= maxn; n++) lens[nl++] = 16 * n;
 	lens[nl++] = 16 * 255; lens[nl++] = 16 * 256; lens[nl++] = 16 * 257;
 	if (vk_thorough) lens[nl++] = 16 * 4096;
+	if (DATA_MAX > (1 << 20)) lens[nl++] = 1 << 20;
 	if (vk_want_trace) { nl = 0; lens[nl++] = 16; lens[nl++] = 48; lens[nl++] = 16 * 9; lens[nl++] = 16 * 33; }
 	vk_fill(cbc_key, 32, 0xcbc1); vk_fill(cbc_iv, 16, 0xcbc2);
 	uint8_t *o1 = scratch1, *o2 = scratch2;
@@ -613,7 +624,7 @@ static void keyexp_sweep(void)
 			if (secrets_mode) { sec_reset(); sec_add_key(key, kb[ks]); }
 			vk_call_poison = rep ? 0xfedcba9876543210ULL : 0x5a5a5a5a5a5a5a5aULL;
 			int faulted = 0;
-			vk_alarm(5000);
+			vk_alarm(DATA_MAX > (1 << 20) ? 60000 : 5000);
 			if (VK_TRY()) { if (enc_only) VCALLN(fn, nm, AP(p_key), AP(p_e)); else VCALLN(fn, nm, AP(p_key), AP(p_e), AP(p_d)); VK_END_TRY(); }
 			else faulted = 1;
 			vk_alarm(0);
@@ -648,8 +659,11 @@ int main(int argc, char **argv)
 	else if (!strcmp(prop, "C19")) vk_call_mode = VC_POISON_REGS;
 	if (ref_run_kats(0)) { fprintf(stderr, "reference KATs failed\n"); return 2; }
 	if (vk_want_wtrap) vk_wtrap_enable();
-	vk_slot_init(&s_in, "in", DATA_MAX + 8192, 1);
-	vk_slot_init(&s_out, "out", DATA_MAX + 8192, 0);
+	if (vk_thorough && !guard_mode && !secrets_mode && !pair_mode && !vk_want_trace && strcmp(prop, "C19")) DATA_MAX = ((size_t)1 << 24) + 4096;
+	vk_slot_init(&s_in, "in", SMALL_MAX + 8192, 1);
+	vk_slot_init(&s_out, "out", SMALL_MAX + 8192, 0);
+	/* the (rare) long lengths get slots of their own: canaries are refilled over the whole slot for every call */
+	if (DATA_MAX > SMALL_MAX) { vk_slot_init(&b_in, "in_big", DATA_MAX + 8192, 1); vk_slot_init(&b_out, "out_big", DATA_MAX + 8192, 0); }
 	vk_slot_init(&s_aad, "aad", 8192, 1);
 	vk_slot_init(&s_iv, "iv", 4096, 1);
 	vk_slot_init(&s_tag, "tag", 4096, 0);
